@@ -152,7 +152,10 @@ Sinks == {"login_dest_loginpage", "login_dest_2fapage", "user_query_root", "user
           "error_details", "session_user_pages",
           \* redirect_bodies: the 3xx answers of the login / second-factor handlers that kept the supplied destination -
           \* a redirect carries an HTML body too
-          "redirect_bodies"}
+          "redirect_bodies",
+          \* profile_path_user_readonly: another user's profile opened by an administrator whose session lacks the hardware
+          \* token (the page then carries a read-only notice)
+          "profile_path_user_readonly"}
 PayloadSeqs == UNION {[1..k -> PayloadAtoms] : k \in 1..2}
 InC18(r) == \E s \in Sinks, p \in PayloadSeqs : r = [sink |-> s, payload |-> p]
 
